@@ -4,7 +4,7 @@ Require Import ExtrOcamlBasic.
 From IronCalc Require Import Base.Prelude Sheet.Cols Sheet.Rows.
 Extraction Language OCaml.
 Extraction "model_c29.ml"
-  Cols.step_cop Cols.apply_cop Cols.run_cops
+  Cols.step_cop Cols.apply_cop Cols.run_cops Cols.style_at
   Cols.get_column_width Cols.get_actual_column_width Cols.is_column_hidden Cols.get_column_style
   Rows.step_rop Rows.apply_rop Rows.materialises
   Rows.row_height Rows.is_row_hidden Rows.get_row_style Rows.rheight_at Rows.rstyle_at.
